@@ -155,6 +155,11 @@ impl Property for C06 {
             schema_only: false,
         };
         case.pieces = gen_stream(rng, &w);
+        if long {
+            // hundreds of diagnostics, each naming the input, through a sink that may take
+            // one byte at a time: the default event budget is for ordinary scenarios
+            case.set("max_events", 6_000_000);
+        }
         if long && rng.chance(1, 2) {
             // a long history in which every piece of noise starts a container or a word
             for p in case.pieces.iter_mut() {
